@@ -1,4 +1,5 @@
 import Blf.UFileRefine
+import Blf.UFileBytes
 /-!
 # C15 — The in-memory stream is a byte FIFO with iostream-like state for any chunking
 
@@ -12,11 +13,18 @@ Proved here (no bound on the number or size of containers, by induction over the
 loop): the refinement for sessions in which whole containers are appended (read sessions): `RInv s w` relates
 the containers held to the ghost byte string `w` of everything appended; `writeCont`, `read`, `seekg`,
 `setFileSize` and `dropOldData` preserve it, `read` returns exactly `w[tellg, tellg+k)`, `dropOldData` never
-moves the start of the held data beyond the get position.  `C15_partial`: the byte-writer side
-(`write(const char*, n)` filling pre-allocated containers, `nextLogContainer`) and sequences that mix both
-kinds of write are covered by the `ufile` correspondence and the flat byte-queue oracle only; mixing them is
-where the code deviates from a byte queue (known finding: a container appended after a partial byte write is
-shadowed).
+moves the start of the held data beyond the get position.
+
+The byte-writer side (write sessions: `write(const char*, n)` filling pre-allocated containers of the default size, reads by
+the compressor, `dropOldData`): `BW D b s w` (`Blf/UFileBytes.lean`) relates the containers to the ghost string `w` of all
+bytes written; `C15_byte_write` (`write` appends exactly its argument; the fuel of the model's copy loop suffices and no vector
+is indexed outside its bounds), `C15_byte_read` (a read of bytes that are there returns the next `n` bytes written),
+`C15_write_session_fifo` (every session: the bytes read so far are the first `tellg` bytes of the bytes written so far).
+
+`C15_partial`: `nextLogContainer`, seeks inside a write session, a change of the default container size in mid-session, and
+sequences that mix both kinds of write are covered by the `ufile` correspondence and the flat byte-queue oracle only; mixing
+the two kinds of write is where the code deviates from a byte queue (known finding: a container appended after a partial
+byte write is shadowed).
 -/
 namespace Blf.Props
 open Blf.UFile
@@ -59,6 +67,28 @@ theorem C15_read_flags (s : State) (n : Nat) :
     have : (n == 0) = false := by simp; omega
     simp only [h, decide_false, Bool.not_false, Bool.true_and, this, Bool.false_eq_true, if_false]
     exact readLoop_flags _ _ _ _
+
+/-- byte writer: `write` appends exactly its argument to the queue, whatever the container size and the fill state -/
+theorem C15_byte_write (D : Nat) (hD : 0 < D) (b : Int) (s : State) (bs w : Bytes) (h : BW D b s w) :
+    BW D b (write s bs) (w ++ bs) := write_bw D hD b s bs w h
+
+/-- byte writer: a read of `n` bytes that are there returns the next `n` bytes of the queue -/
+theorem C15_byte_read (D : Nat) (b : Int) (s : State) (w : Bytes) (h : BW D b s w) (hg : b ≤ s.tellg) (n : Nat)
+    (hn : (n : Int) + s.tellg ≤ s.tellp) (hfs : s.tellp ≤ s.fileSize) :
+    (read s n).2 = (w.drop s.tellg.toNat).take n ∧ (read s n).1.tellg = s.tellg + (n : Nat) ∧
+    (read s n).1.gcount = n ∧ (read s n).1.fileSize = s.fileSize ∧ BW D b (read s n).1 w := read_bw D b s w h hg n hn hfs
+
+/-- **every write session is a byte FIFO**: for every sequence of byte writes, admitted reads and drops, of any length and
+    chunking, with any default container size `D > 0`: (bytes read so far) = first `tellg` bytes of (bytes written so far),
+    the put position is the number of bytes written, and the model never flags an out-of-bounds access or a non-terminating loop -/
+theorem C15_write_session_fifo (D : Nat) (hD : 0 < D) (ops : List BOp) :
+    let x := ops.foldl bstep (({ dlcs := D } : State), [], [])
+    x.2.1 = x.2.2.take x.1.tellg.toNat ∧ x.1.tellp = x.2.2.length ∧ x.1.oob = false ∧ x.1.hang = false :=
+  session_fifo D hD ops
+
+/-- test (one session): container size 3; write 5 bytes, read 2, drop, write 2, read 4, drop, read 1 -/
+example : ([BOp.write [1,2,3,4,5], .read 2, .drop, .write [6,7], .read 4, .drop, .read 1].foldl bstep
+    (({ dlcs := 3 } : State), [], [])).2.1 = [1,2,3,4,5,6,7] := by decide
 
 /-- non-vacuity: two containers appended, a read straddling their boundary -/
 example : (read (writeCont (writeCont {} 3 [1, 2, 3]) 2 [4, 5]) 4).2 = [1, 2, 3, 4] := by decide
